@@ -201,6 +201,33 @@ def h():
 """
         obs.append(Ob(f"concrete.fixture.{os.path.basename(path).split('.')[0]}", src, f"{os.path.basename(path)}: concrete twin of the fixture-pair obligation, plus two clones taken before the mutation (real functools caches in force)",
                       engine="C", group="fixture", shape=f"fixture {os.path.basename(path)} loaded three times, cloned twice; seeded concrete mutation values"))
+    # legacy (pre-envelope) sampler instruments are saved by replaying the chunks they were loaded from: that replay store must be
+    # per instance.  B is a legacy instrument (REF-ENC, symbolic point bytes); loading other instruments (legacy and modern) and
+    # mutating one of them must change neither B's snapshot nor its saved bytes nor what a fresh Sampler saves.
+    body = """
+    from vf import refformat as RF
+    def legacy(x, y, smp):
+        rec = RF.sampler_record(sign=b"\\0\\0\\0\\0", version=0, with_tail=False, vol_points=[x, y] + [0] * 22, pan_points=[0] * 24, nvol=1, npan=0,
+                                vol_flags=1, pan_flags=0, vol_sus=0, pan_sus=0, vib_depth=9, fadeout=300)
+        return RF.enc_synth("Sampler", flags=0x8459, cvals=[256, 128, 1, 1, 8, 4, 128, 0], chunks=[(0, rec), (1, [0] * 40), (2, smp, 1, 8000)], chnk=0x10B)
+    SMP = MODULE_CLASSES["Sampler"]
+    f0 = save_bytes(Synth(SMP()))
+    b = load_bytes(legacy(x1, y1, [1, 2, 3, 4])).module
+    s0 = snap_module(b, groups=("type", "common", "ctl", "opt", "payload"))
+    y0 = save_bytes(Synth(b))
+    a = load_bytes(legacy(x2, y2, [5, 6])).module
+    m_ = load_bytes(save_bytes(Synth(SMP(volume=v)))).module
+    a.volume = v
+    a.volume_envelope.points.append((x2, 0))
+    s1 = snap_module(b, groups=("type", "common", "ctl", "opt", "payload"))
+    if not same(s0, s1) or save_bytes(Synth(b)) != y0:
+        return False
+    u = load_bytes(y0).module
+    return same(s0, snap_module(u, groups=("type", "common", "ctl", "opt", "payload"))) and save_bytes(Synth(SMP())) == f0 and b.volume_envelope.points == [(x1, y1 * 0x200)]
+"""
+    obs.append(Ob("legacy.sampler", build([U16("x1"), R("y1", 0, 0x40), U16("x2"), R("y2", 0, 0x40), R("v", 0, 512)], body, setup=SETUP),
+                  "a loaded legacy sampler instrument keeps its state and its saved bytes while other instruments (legacy and modern) are loaded and mutated; fresh Samplers are unaffected",
+                  group="fixture", shape="REF-ENC legacy record loaded as B, then a second legacy instrument and a modern one loaded; one mutated", symbolic="legacy point bytes of both instruments, a controller value", timeout=300))
     # cross-type pairs that share a chunk class
     for a_t, b_t, mut in (("Generator", "Analog generator", "a.drawn_waveform.samples[3] = v"), ("Analog generator", "Generator", "a.drawn_waveform.samples[3] = v"),
                           ("MultiCtl", "WaveShaper", "a.curve.values[9] = v"), ("WaveShaper", "MultiCtl", "a.curve.values[9] = v"),
